@@ -10,6 +10,14 @@ cd "$VERIF_ROOT"
 WORK="$(mktemp -d "${TMPDIR:-/tmp}/vcheck-bin.XXXXXX")"
 trap 'rm -rf "$WORK"' EXIT
 cp /repo/go.sum "$VERIF_ROOT/h/go.sum" 2>/dev/null
+# VERIF_REPO (tools only, never set by a registered command): build against a scratch copy of the library
+# instead of /repo, so that a seeded change can be tried without touching /repo
+REPO="${VERIF_REPO:-/repo}"
+MODFLAG=""
+if [ "$REPO" != /repo ]; then
+  sed "s#=> /repo#=> $REPO#" "$VERIF_ROOT/h/go.mod" > "$WORK/go.mod" && cp "$REPO/go.sum" "$WORK/go.sum" || exit 2
+  MODFLAG="-modfile=$WORK/go.mod"
+fi
 
 needs_sched=0
 case "${1:-}" in
@@ -19,12 +27,12 @@ esac
 
 if [ "$needs_sched" = 1 ]; then
   ( cd "$VERIF_ROOT/instr" && go build -o "$WORK/instr" . ) || { echo "engine error: instrumenter does not build" >&2; exit 2; }
-  "$WORK/instr" -repo /repo -out "$WORK/instr-out" -vsched "$VERIF_ROOT/instr/vsched" >&2 || { echo "engine error: instrumentation of /repo failed" >&2; exit 2; }
+  "$WORK/instr" -repo "$REPO" -out "$WORK/instr-out" -vsched "$VERIF_ROOT/instr/vsched" >&2 || { echo "engine error: instrumentation of /repo failed" >&2; exit 2; }
   export VERIF_INSTR_STATS="$WORK/instr-out/stats.json"
-  ( cd "$VERIF_ROOT/h" && go build -tags verifsched -overlay "$WORK/instr-out/overlay.json" -o "$WORK/vcheck" ./cmd/vcheck ) || { echo "engine error: instrumented harness does not build against /repo" >&2; exit 2; }
-  ( cd "$VERIF_ROOT/h" && go build -race -tags verifsched -overlay "$WORK/instr-out/overlay.json" -o "$WORK/vcheck-race" ./cmd/vcheck ) || { echo "engine error: race build failed" >&2; exit 2; }
+  ( cd "$VERIF_ROOT/h" && go build $MODFLAG -tags verifsched -overlay "$WORK/instr-out/overlay.json" -o "$WORK/vcheck" ./cmd/vcheck ) || { echo "engine error: instrumented harness does not build against /repo" >&2; exit 2; }
+  ( cd "$VERIF_ROOT/h" && go build $MODFLAG -race -tags verifsched -overlay "$WORK/instr-out/overlay.json" -o "$WORK/vcheck-race" ./cmd/vcheck ) || { echo "engine error: race build failed" >&2; exit 2; }
   export VERIF_RACE_BIN="$WORK/vcheck-race"
 else
-  ( cd "$VERIF_ROOT/h" && go build -o "$WORK/vcheck" ./cmd/vcheck ) || { echo "engine error: harness does not build against /repo" >&2; exit 2; }
+  ( cd "$VERIF_ROOT/h" && go build $MODFLAG -o "$WORK/vcheck" ./cmd/vcheck ) || { echo "engine error: harness does not build against /repo" >&2; exit 2; }
 fi
 "$WORK/vcheck" "$@"
